@@ -78,9 +78,16 @@ def build_spec(rng):
     P = lambda avoid: gen_payload(rng, 7, avoid)
     L = []
     blank = lambda: [''] * rng.choice([0, 0, 1, 2])
-    L += ['%top{', mark('top', P(bad_str), 'string'), mark('top', P(bad_cmt), 'comment'), '}'] + blank()
+    if rng.random() < 0.25:
+        # the closing brace of the %top block at the end of a line of code (F72), and a second %top block right after it
+        L += ['%top{', mark('top', P(bad_str), 'string'), mark('top', P(bad_cmt), 'comment') + ' }', '%top{', 'static int fv_top2;', '}'] + blank()
+    else:
+        L += ['%top{', mark('top', P(bad_str), 'string'), mark('top', P(bad_cmt), 'comment'), '}'] + blank()
     feats = set(f for f in ('longline', 'strcont', 'indent_then_block', 'cmtcont', 'indent_gap', 'mid_block', 'blank_runs',
-                            'pipe_then_pctbrace', 'less_multiline', 'bs_bracket', 'apos_line') if rng.random() < 0.3)
+                            'pipe_then_pctbrace', 'less_multiline', 'bs_bracket', 'apos_line', 'less_brackets', 'lexopt') if rng.random() < 0.3)
+    if 'lexopt' in feats:
+        # old-style lex table-size declarations: ignored, but they are lines of the input
+        L += rng.sample(['%e 1019', '%p 2807', '%n 371', '%k 284 /* packed classes */', '%a 1213', '%o 1117'], rng.choice([1, 2, 4]))
     if 'indent_then_block' in feats:
         L += ['    static int fv_indented_first;']
     L += ['%{', '#include <stdio.h>', 'static void fv_use(const char *s) { (void) s; }',
@@ -105,6 +112,9 @@ def build_spec(rng):
         L += ['z2\t{ /* a comment', '   over two lines */ fv_use("z2"); }'] + blank()
     if 'less_multiline' in feats:
         L += ['z3\t{ yyless(', '\t\t1', '\t); }'] + blank()
+    if 'less_brackets' in feats:
+        # nested indexing in the argument of yyless(): the call is emitted outside the m4 quotes (F71)
+        L += ['z9\t{ static int fv_ix[2], fv_jx[1]; yyless(fv_ix[fv_jx[0]]); }'] + blank()
     if 'bs_bracket' in feats:
         # a backslash right before [[ or ]] inside a string / character constant of an action (F70)
         q = P(bad_str + ['{', '}'])
@@ -166,6 +176,11 @@ def _e2e_job(job):
             res['problems'].append('user code of region %s (marker %d) is missing from the generated scanner' % (region, k))
         elif m.group(1) != payload:
             res['problems'].append('user code of region %s altered: wrote %r, scanner has %r' % (region, payload, m.group(1)))
+    mm = re.search(r'[^\n]([ \t]*#line \d+ "[^"\n]*")', out)
+    if mm:
+        res['problems'].append('a #line directive stands in the middle of an output line: %r' % out[max(0, mm.start() - 30):mm.end()][-90:])
+    if 'less_brackets' in feats and 'yyless(fv_ix[fv_jx[0]]);' not in out:
+        res['problems'].append('the action `yyless(fv_ix[fv_jx[0]]);` does not arrive verbatim in the generated scanner')
     if 'apos_line' in feats:
         m7 = re.search(r'fv_use\("z7"\);(.*?)fv_use\("z8"\);', out, re.S)
         if not m7:
